@@ -184,6 +184,37 @@ def run(rep):
         if got is None or got != want:
             rep.fail("git-reads-dulwich-file", "git config --list differs from what dulwich wrote", q,
                      git=str(got)[:300], want=str(want)[:300], err=err.decode("latin1")[:100])
+    multidict(rep)
+
+
+def multidict(rep):
+    """set/add/remove sequences over a small key universe with case variants"""
+    rng = rep.rng
+    keys = [b"fetch", b"Fetch", b"FETCH", b"url", b"k", b"K", b"push"]
+    vals = [b"1", b"2", b"x y", b"a;b", b"", b" lead", b"q\"uote"]
+    items = []
+    n = 400 if rep.tier == "quick" else 8000
+    for i in range(n):
+        ops = []
+        for _ in range(rng.randrange(1, 9)):
+            k = rng.choice(keys[:3] if rng.random() < 0.6 else keys)
+            how = rng.choice("aaasd")
+            ops.append("%s:%s" % (how, hx(k)) + ("" if how == "d" else ":" + hx(rng.choice(vals))))
+        probes = ",".join(hx(k) for k in (b"fetch", b"URL", b"k", b"push"))
+        items.append(dict(kind="multidict-ops", line="md %s %s" % (";".join(ops), probes),
+                          req={"fn": "md", "ops": ";".join(ops), "probes": probes}, outcome=False,
+                          sample={"ops": ops}))
+    for it, m, r in compare(rep, PROP, items):
+        if not isinstance(r, dict) or "cfitems" not in r:
+            continue
+        real = m.split(" ")[0]
+        # what the ConfigFile section shows and what survives write+read must be the same ordered pairs
+        if r["cfitems"] != real:
+            rep.fail("config-ops", "ConfigFile items after a set/add/remove sequence differ from the ordered-pairs model", it["req"],
+                     got=r["cfitems"], want=real)
+        elif r["backitems"] != real:
+            rep.fail("config-ops-roundtrip", "section written and read back differs after a set/add/remove sequence", it["req"],
+                     got=r["backitems"], want=real)
 
 
 def replay(rep, body):
